@@ -1,41 +1,20 @@
 ----------------------------- MODULE Simulator -----------------------------
 (***************************************************************************)
-(* Mechanism specification of the simulator's main loop                     *)
-(* (crates/maybenot-simulator/src/lib.rs: sim_advanced, pick_next,          *)
-(* do_scheduled_action, do_internal_timer, trigger_update; network.rs:      *)
-(* sim_network_stack; queue_peek.rs), composed with the observer SimObs.    *)
-(*                                                                         *)
-(* Shape: one step per iteration of pick_next (fire an internal timer, fire *)
-(* an action timer - both without advancing time, as the code's recursion   *)
-(* does) or per iteration of the main loop (expire blocking or pop a queued *)
-(* event, run the network stack, ask the framework). The two frameworks are *)
-(* an ORACLE: after every processed event each machine of that side may     *)
-(* return one action from ActionAlphabet, at most Budget actions in total.  *)
-(* Every step emits the lines the hooks record (act / fired / ev / exit),   *)
-(* which are folded through SimObs; the properties C14-C18 are the          *)
-(* observer's clauses.                                                      *)
-(*                                                                         *)
-(* Deliberate abstractions (DESIGN.md section 4.4): aggregate base delays   *)
-(* and the pps bottleneck are not modelled (no base shifting); the order    *)
-(* among same-time, same-priority candidates is nondeterministic.           *)
-(* `Variant` names historic defects: "F7" bypass flag overwritten, "F8"     *)
-(* zero-duration UpdateTimer dropped. The zero-duration blocking behaviour  *)
-(* (F6, a known finding) is modelled as coded.                              *)
+(* Model checking of the simulator: the mechanism SimMech composed with the *)
+(* observer SimObs. The two frameworks are an ORACLE: after every processed *)
+(* event each machine of that side may return one action from               *)
+(* ActionAlphabet, at most Budget actions in total. Every step's lines      *)
+(* (fired / ev / act / exit) are folded through SimObs; the properties      *)
+(* C14-C19 are the observer's clauses. All time-sorted traces of            *)
+(* 1..MaxPackets packets with times in {0, 1, 3} are explored.              *)
 (***************************************************************************)
-EXTENDS SimObs, TLC
+EXTENDS SimMech, SimObs
 
-CONSTANTS Variant, MaxPackets, Delay, NC, NS, Budget, ActionAlphabetId, MaxEvents, Cont
+CONSTANTS MaxPackets, Delay, NC, NS, Budget, ActionAlphabetId, MaxEvents, Cont
 
-\* all time-sorted traces of 1..MaxPackets packets with times in {0, 1, 3} (bursts included)
 Traces ==
   {tr \in UNION {[1..k -> [t : {0, 1, 3}, s : BOOLEAN]] : k \in 1..MaxPackets} :
      \A i \in 1..(Len(tr) - 1) : tr[i].t <= tr[i + 1].t}
-
-Sides == {1, 2}
-NMach(s) == IF s = 1 THEN NC ELSE NS
-
-NoA == [on |-> FALSE, kind |-> "-", due |-> 0, bypass |-> FALSE, replace |-> FALSE, duration |-> 0, m |-> 0]
-NoT == [on |-> FALSE, due |-> 0]
 
 Durs == {0, 1, 3}
 ActionAlphabet ==
@@ -53,218 +32,31 @@ ActionAlphabet ==
        [] ActionAlphabetId = "all"    -> pads \cup blocks \cup timers \cup cancels
        [] ActionAlphabetId = "none"   -> {}
 
-VARIABLES now, sd, left, nev, nid, done, o
-vars == <<now, sd, left, nev, nid, done, o>>
+\* the bounded framework oracle
+Oracle(Z, s) ==
+  IF Z.left = 0 \/ NMach(Z, s) = 0 THEN {[i \in 1..NMach(Z, s) |-> NoneAct]}
+  ELSE {f \in [1..NMach(Z, s) -> ActionAlphabet \cup {NoneAct}] :
+          Cardinality({i \in 1..NMach(Z, s) : f[i].kind # "None"}) <= Z.left}
 
-\* queued event
-Ev(id, e, m, t, p, bp, rp) == [id |-> id, e |-> e, m |-> m, t |-> t, p |-> p, bp |-> bp, rp |-> rp]
-
-InitSide(base, n) ==
-  [base |-> base, q |-> {}, act |-> [i \in 1..n |-> NoA], tim |-> [i \in 1..n |-> NoT],
-   blk |-> [on |-> FALSE, until |-> 0], byp |-> FALSE]
-
-\* a trace is a sequence of [t, s]; the server's sends are the client's receives, one delay earlier
-BaseOf(tr, s) ==
-  LET mine == SelectSeq(tr, LAMBDA x : x.s = (s = 1))
-  IN [i \in 1..Len(mine) |-> IF s = 1 THEN mine[i].t ELSE mine[i].t - Delay]
-StartOf(tr) == LET T == {BaseOf(tr, 1)[i] : i \in 1..Len(BaseOf(tr, 1))} \cup {BaseOf(tr, 2)[i] : i \in 1..Len(BaseOf(tr, 2))}
-               IN CHOOSE x \in T : \A y \in T : x <= y
-
-Init ==
-  \E tr \in Traces :
-    /\ now = StartOf(tr)
-    /\ sd = <<InitSide(BaseOf(tr, 1), NC), InitSide(BaseOf(tr, 2), NS)>>
-    /\ left = Budget /\ nev = 0 /\ nid = 1 /\ done = FALSE
-    /\ o = SimObsInit([nc |-> NC, ns |-> NS, delay |-> Delay, pps |-> -1, trace |-> tr,
-                       max_it |-> 0, start |-> StartOf(tr)])
-
----------------------------------------------------------------------------
-\* candidates of pick_next
-
-Min(S) == CHOOSE x \in S : \A y \in S : x <= y
-
-ActCands == {<<s, i>> \in (Sides \X (1..(IF NC > NS THEN NC ELSE NS))) :
-               i <= NMach(s) /\ sd[s].act[i].on /\ sd[s].act[i].due >= now}
-TimCands == {<<s, i>> \in (Sides \X (1..(IF NC > NS THEN NC ELSE NS))) :
-               i <= NMach(s) /\ sd[s].tim[i].on /\ sd[s].tim[i].due >= now}
-BlkCands == {s \in Sides : sd[s].blk.on}
-
-\* is a queued TunnelSent held back by the blocking of its side?
-Held(s, e) == e.e = "TunnelSent" /\ sd[s].blk.on /\ ~(sd[s].byp /\ e.bp)
-EffTime(s, e) == IF Held(s, e) /\ sd[s].blk.until > e.t THEN sd[s].blk.until ELSE e.t
-SideQ(s) == sd[s].q
-QCandTimes == UNION {{EffTime(s, e) : e \in sd[s].q} \cup (IF sd[s].base # <<>> THEN {sd[s].base[1]} ELSE {}) : s \in Sides}
-
-Inf == 1000000
-MinOr(S) == IF S = {} THEN Inf ELSE Min(S)
-ST == MinOr({sd[c[1]].act[c[2]].due : c \in ActCands})
-IT == MinOr({sd[c[1]].tim[c[2]].due : c \in TimCands})
-BT == MinOr({sd[s].blk.until : s \in BlkCands})
-QT == LET m == MinOr(QCandTimes) IN IF m = Inf THEN Inf ELSE IF m < now THEN now ELSE m
-
-Nothing == ST = Inf /\ IT = Inf /\ BT = Inf /\ QT = Inf
-
----------------------------------------------------------------------------
-\* lines
-EvLine(c, e, m, t, p, bp, rp) == [k |-> "ev", c |-> c, e |-> e, m |-> m, t |-> t, p |-> p, bp |-> bp, rp |-> rp]
-ActLine(c, t, a, m) == [k |-> "act", c |-> c, t |-> t,
-                        a |-> [kind |-> a.kind, m |-> m, bypass |-> a.bypass, replace |-> a.replace,
-                               timer |-> a.timer, timeout |-> a.timeout, duration |-> a.duration]]
-FiredLine(c, m, t, w) == [k |-> "fired", c |-> c, m |-> m, t |-> t, w |-> w]
+VARIABLES Z, o
+vars == <<Z, o>>
 
 RECURSIVE Fold(_, _)
 Fold(ob, lines) == IF lines = <<>> THEN ob ELSE Fold(SimObsStep(ob, Head(lines)), Tail(lines))
 
-IsC(s) == s = 1
+Init ==
+  \E tr \in Traces :
+    LET cf == [delay |-> Delay, nc |-> NC, ns |-> NS, cont |-> Cont, maxEvents |-> MaxEvents] IN
+    /\ Z = ZInit(tr, cf, Budget)
+    /\ o = SimObsInit([nc |-> NC, ns |-> NS, delay |-> Delay, pps |-> -1, trace |-> tr,
+                       max_it |-> 0, start |-> StartOf(tr, Delay)])
 
----------------------------------------------------------------------------
-\* pick_next: an internal timer fires (TimerEnd is queued at the expiry, time does not move)
-FireTimer ==
-  /\ ~done /\ ~Nothing
-  /\ ~(BT <= ST /\ BT <= IT /\ BT <= QT) /\ ~(QT <= ST /\ QT <= IT) /\ IT <= ST
-  /\ \E c \in TimCands :
-       /\ sd[c[1]].tim[c[2]].due = IT
-       /\ sd' = [sd EXCEPT ![c[1]].tim[c[2]] = NoT,
-                           ![c[1]].q = @ \cup {Ev(nid, "TimerEnd", c[2] - 1, IT, FALSE, FALSE, FALSE)}]
-       /\ o' = Fold(o, <<FiredLine(IsC(c[1]), c[2] - 1, IT, "timer")>>)
-  /\ nid' = nid + 1
-  /\ UNCHANGED <<now, left, nev, done>>
+Next ==
+  \E c \in ZChoices(Z, Oracle) :
+    LET r == ZStep(Z, c) IN
+    /\ Z' = r.Z
+    /\ o' = Fold(o, r.lines)
 
-\* pick_next: an action timer fires
-FireAction ==
-  /\ ~done /\ ~Nothing
-  /\ ~(BT <= ST /\ BT <= IT /\ BT <= QT) /\ ~(QT <= ST /\ QT <= IT) /\ ~(IT <= ST)
-  /\ \E c \in ActCands :
-       LET s == c[1]  a == sd[s].act[c[2]]  m == c[2] - 1 IN
-       /\ a.due = ST
-       /\ IF a.kind = "SendPadding"
-          THEN sd' = [sd EXCEPT ![s].act[c[2]] = NoA,
-                                ![s].q = @ \cup {Ev(nid, "PaddingSent", m, ST, TRUE, a.bypass, a.replace)}]
-          ELSE LET end == ST + a.duration
-                   cur == IF sd[s].blk.on THEN sd[s].blk.until ELSE ST
-                   upd == a.replace \/ end > cur
-                   byp == IF ~upd THEN sd[s].byp
-                          ELSE IF "F7" \in Variant \/ ~sd[s].blk.on THEN a.bypass
-                          ELSE sd[s].byp /\ a.bypass
-               IN sd' = [sd EXCEPT ![s].act[c[2]] = NoA,
-                                   ![s].blk = IF upd THEN [on |-> TRUE, until |-> end] ELSE @,
-                                   ![s].byp = byp,
-                                   ![s].q = @ \cup {Ev(nid, "BlockingBegin", m, ST, FALSE, byp, FALSE)}]
-       /\ o' = Fold(o, <<FiredLine(IsC(s), m, ST, "action")>>)
-  /\ nid' = nid + 1
-  /\ UNCHANGED <<now, left, nev, done>>
-
----------------------------------------------------------------------------
-\* the framework oracle: the actions returned on side s at time t
-\* (one function machine -> action or "none"), and their effect (trigger_update)
-NoneAct == [kind |-> "None", bypass |-> FALSE, replace |-> FALSE, timer |-> "-", timeout |-> 0, duration |-> 0]
-Returned(s) ==
-  IF left = 0 \/ NMach(s) = 0 THEN {[i \in 1..NMach(s) |-> NoneAct]}
-  ELSE {f \in [1..NMach(s) -> ActionAlphabet \cup {NoneAct}] :
-          Cardinality({i \in 1..NMach(s) : f[i].kind # "None"}) <= left}
-
-RECURSIVE Apply(_, _, _, _, _)
-\* apply the actions of machines i..n on side record S at time t; returns [S, q additions, lines]
-Apply(S, f, i, t, acc) ==
-  IF i > Len(f) THEN [S |-> S, acc |-> acc]
-  ELSE LET a == f[i] IN
-       IF a.kind = "None" THEN Apply(S, f, i + 1, t, acc)
-       ELSE IF a.kind = "Cancel"
-       THEN LET S1 == IF a.timer \in {"Action", "All"} THEN [S EXCEPT !.act[i] = NoA] ELSE S
-                S2 == IF a.timer \in {"Internal", "All"} THEN [S1 EXCEPT !.tim[i] = NoT] ELSE S1
-            IN Apply(S2, f, i + 1, t, [acc EXCEPT !.acts = Append(@, <<i - 1, a>>)])
-       ELSE IF a.kind \in {"SendPadding", "BlockOutgoing"}
-       THEN Apply([S EXCEPT !.act[i] = [on |-> TRUE, kind |-> a.kind, due |-> t + a.timeout, bypass |-> a.bypass,
-                                        replace |-> a.replace, duration |-> a.duration, m |-> i - 1]],
-                  f, i + 1, t, [acc EXCEPT !.acts = Append(@, <<i - 1, a>>)])
-       ELSE \* UpdateTimer
-            LET cur == S.tim[i]
-                sets == IF "F8" \in Variant
-                        THEN a.replace \/ (IF cur.on THEN cur.due ELSE t) < t + a.duration
-                        ELSE a.replace \/ ~cur.on \/ cur.due < t + a.duration
-            IN Apply(IF sets THEN [S EXCEPT !.tim[i] = [on |-> TRUE, due |-> t + a.duration]] ELSE S,
-                     f, i + 1, t,
-                     [acc EXCEPT !.acts = Append(@, <<i - 1, a>>),
-                                 !.begins = IF sets THEN Append(@, i - 1) ELSE @])
-
-\* main loop body for an event e picked on side s at time t
-Process(s, e, t, Sd0) ==
-  \E f \in Returned(s) :
-    LET other == Other(s)
-        \* sim_network_stack
-        blockedHead ==
-          LET cands == {x \in Sd0[s].q : x.e = "TunnelSent" /\ (~x.bp \/ ~Sd0[s].byp)}
-          IN IF cands = {} THEN {} ELSE {x \in cands : \A y \in cands : x.t <= y.t}
-        net(Sd, head) ==
-          CASE e.e = "NormalSent" ->
-                 [Sd EXCEPT ![s].q = @ \cup {Ev(nid, "TunnelSent", -1, t, FALSE, FALSE, FALSE)}]
-            [] e.e = "PaddingSent" ->
-                 IF e.rp /\ (\E x \in head : ~x.p)
-                 THEN LET h == CHOOSE x \in head : ~x.p IN
-                      IF ~e.bp THEN Sd
-                      ELSE [Sd EXCEPT ![s].q = (@ \ {h}) \cup {[h EXCEPT !.bp = TRUE, !.rp = FALSE]}]
-                 ELSE [Sd EXCEPT ![s].q = @ \cup {Ev(nid, "TunnelSent", -1, t, TRUE, e.bp, e.rp)}]
-            [] e.e = "TunnelSent" ->
-                 [Sd EXCEPT ![other].q = @ \cup {Ev(nid, "TunnelRecv", -1,
-                                                    IF t + Delay < now THEN now ELSE t + Delay, e.p, FALSE, FALSE)}]
-            [] e.e = "TunnelRecv" ->
-                 [Sd EXCEPT ![s].q = @ \cup {Ev(nid, IF e.p THEN "PaddingRecv" ELSE "NormalRecv", -1, t, e.p, FALSE, FALSE)}]
-            [] OTHER -> Sd
-        Sd1 == net(Sd0, blockedHead)
-        \* trigger_update
-        r   == Apply(Sd1[s], f, 1, t, [acts |-> <<>>, begins |-> <<>>])
-        S2  == [r.S EXCEPT !.q = @ \cup {Ev(nid + 10 + j, "TimerBegin", r.acc.begins[j], t, FALSE, FALSE, FALSE) :
-                                           j \in 1..Len(r.acc.begins)}]
-        Sd2 == [Sd1 EXCEPT ![s] = S2]
-        used == Len(r.acc.acts)
-        lines == <<EvLine(IsC(s), e.e, e.m, t, e.p, e.bp, e.rp)>>
-                 \o [j \in 1..used |-> ActLine(IsC(s), t, r.acc.acts[j][2], r.acc.acts[j][1])]
-        \* stop test (no_normal_packets)
-        quiet(S) == S.base = <<>> /\ \A x \in S.q : x.e # "TunnelSent" /\ x.e # "TunnelRecv" /\ ~x.p
-        stop == ~Cont /\ quiet(Sd2[1]) /\ quiet(Sd2[2])
-        lines2 == IF stop THEN Append(lines, [k |-> "exit", reason |-> "all_normal_processed", it |-> nev + 1, len |-> nev + 1])
-                  ELSE lines
-    IN /\ sd' = Sd2
-       /\ left' = left - used
-       /\ done' = stop
-       /\ o' = Fold(o, lines2)
-
-\* blocking expires: BlockingEnd is processed at once
-ExpireBlocking ==
-  /\ ~done /\ ~Nothing /\ nev < MaxEvents
-  /\ BT <= ST /\ BT <= IT /\ BT <= QT
-  /\ \E s \in BlkCands :
-       /\ sd[s].blk.until = BT
-       /\ (s = 1 => ~(2 \in BlkCands /\ sd[2].blk.until = BT))     \* ties: the server (c < s test)
-       /\ LET Sd0 == [sd EXCEPT ![s].blk = [on |-> FALSE, until |-> 0]]
-              t == IF BT > now THEN BT ELSE now
-          IN /\ Process(s, Ev(0, "BlockingEnd", -1, t, FALSE, FALSE, FALSE), t, Sd0)
-             /\ now' = t
-  /\ nev' = nev + 1 /\ nid' = nid + 20
-
-\* a queued event or the head of a base trace is processed
-PopQueue ==
-  /\ ~done /\ ~Nothing /\ nev < MaxEvents
-  /\ ~(BT <= ST /\ BT <= IT /\ BT <= QT) /\ QT <= ST /\ QT <= IT
-  /\ \E s \in Sides :
-       \/ \E e \in sd[s].q :
-            /\ (IF EffTime(s, e) < now THEN now ELSE EffTime(s, e)) = QT
-            /\ LET Sd0 == [sd EXCEPT ![s].q = @ \ {e}]
-               IN Process(s, e, QT, Sd0)
-       \/ /\ sd[s].base # <<>> /\ (IF sd[s].base[1] < now THEN now ELSE sd[s].base[1]) = QT
-          /\ LET Sd0 == [sd EXCEPT ![s].base = Tail(@)]
-             IN Process(s, Ev(0, "NormalSent", -1, QT, FALSE, FALSE, FALSE), QT, Sd0)
-  /\ now' = QT
-  /\ nev' = nev + 1 /\ nid' = nid + 20
-
-\* nothing left to do
-Finish ==
-  /\ ~done /\ (Nothing \/ nev >= MaxEvents)
-  /\ done' = TRUE
-  /\ o' = Fold(o, <<[k |-> "exit", reason |-> "end", it |-> nev, len |-> nev]>>)
-  /\ UNCHANGED <<now, sd, left, nev, nid>>
-
-Next == FireTimer \/ FireAction \/ ExpireBlocking \/ PopQueue \/ Finish
 Spec == Init /\ [][Next]_vars
 
 ---------------------------------------------------------------------------
@@ -279,7 +71,7 @@ Inv_C18 == Holds("C18")
 Inv_C19 == Holds("C19")
 Inv_Log == Holds("LOG")
 \* C14: with no machines, the processed events reproduce the trace
-Inv_C14 == (done /\ NC = 0 /\ NS = 0 /\ nev < MaxEvents) => Reproduces(o.cf, o.evs)
+Inv_C14 == (Z.done /\ NC = 0 /\ NS = 0 /\ Z.nev < MaxEvents) => Reproduces(o.cf, o.evs)
 \* simulated time never moves backwards (C19)
-TimeMonotone == [][now' >= now]_vars
+TimeMonotone == [][Z'.now >= Z.now]_vars
 =============================================================================
